@@ -232,6 +232,12 @@ def run(tier, seed, workers):
                  "menu": ["flat", "mild"], "bound": 2})
     cfgs.append({"N": 4, "opts": {"adaptive": True, "target_efficiency": 0.9}, "sampler": "emcee_smc",
                  "menu": ["flat", "mild", "peaked"], "bound": 2})
+    # the ramp exponent on the other front-end too (rates above and below 1)
+    for rate in (2.0, 0.5):
+        cfgs.append({"N": 4, "opts": {"adaptive": True, "target_efficiency": (0.3, 0.8), "rate": rate}, "sampler": "emcee_smc",
+                     "menu": ["flat", "mild", "peaked"], "bound": 2})
+    cfgs.append({"N": 4, "opts": {"adaptive": True, "target_efficiency": (0.3, 0.8), "rate": 0.5}, "sampler": "smc",
+                 "menu": ["flat", "mild", "peaked"], "bound": 2})
     for d in pmap("checks.c07", "as_run", cfgs, workers):
         rep.merge(d)
     rep.count("as_run_configs", len(cfgs))
